@@ -5,6 +5,7 @@ import (
 	"go/constant"
 	"go/token"
 	"go/types"
+	"sort"
 
 	"golang.org/x/tools/go/ssa"
 )
@@ -145,6 +146,18 @@ func (f *Frame) execInstr(b *ssa.BasicBlock, in ssa.Instruction, o *blockOut) bo
 		f.nonNil(x, p, g, "field address ."+fieldName(x))
 		pt := x.X.Type().Underlying().(*types.Pointer).Elem()
 		s, _ := structOf(pt)
+		if vc.eng.ct.Encapsulated[typeKey(pt)] && !isMethodOf(f.fn, pt) {
+			k := typeKey(pt) + "." + s.Field(x.Field).Name() + "@" + f.fn.Name()
+			if vc.encapsViol == nil {
+				vc.encapsViol = map[string]bool{}
+			}
+			if !vc.encapsViol[k] && vc.quiet == 0 {
+				vc.encapsViol[k] = true
+				vc.addObl(&Obligation{Name: "encapsulation:" + shortFunc(typeKey(pt)) + "." + s.Field(x.Field).Name() + "@" + f.fn.Name(), Kind: "census", Goal: False, Guard: True,
+					Src: "field " + s.Field(x.Field).Name() + " of the encapsulated type " + shortFunc(typeKey(pt)) + " is accessed outside its methods (state protected by the index invariant must only change through the contracted methods)",
+					Where: f.posString(x.Pos())})
+			}
+		}
 		r := vc.fieldAddr(p, s, typeKey(pt), x.Field)
 		r.Typ = x.Type()
 		f.env[x] = r
@@ -205,6 +218,11 @@ func (f *Frame) execInstr(b *ssa.BasicBlock, in ssa.Instruction, o *blockOut) bo
 			fv.Binds = append(fv.Binds, f.val(bnd))
 		}
 		f.env[x] = fv
+		if closureEscapes(x) {
+			// the closure is more than a direct callee / deferred call: whoever gets hold
+			// of it may run it at any time, so the cells it captures are shared from here on
+			vc.markShared(fv)
+		}
 	case *ssa.ChangeType:
 		v := f.val(x.X)
 		v.Typ = x.Type()
@@ -257,8 +275,16 @@ func (f *Frame) execInstr(b *ssa.BasicBlock, in ssa.Instruction, o *blockOut) bo
 	case *ssa.Next:
 		f.env[x] = f.next(x, st)
 	case *ssa.Send:
-		// not modelled (no blocking, no channel contents)
+		// not modelled (no blocking, no channel contents); what is sent escapes to other goroutines
+		vc.markShared(f.val(x.X))
+		vc.yield(st)
 	case *ssa.Select:
+		for _, s := range x.States {
+			if s.Send != nil {
+				vc.markShared(f.val(s.Send))
+			}
+		}
+		vc.yield(st)
 		f.env[x] = f.selectOp(x)
 	case *ssa.Go:
 		f.goStmt(x, o)
@@ -284,6 +310,9 @@ func (f *Frame) execInstr(b *ssa.BasicBlock, in ssa.Instruction, o *blockOut) bo
 		}
 		f.runDefers(b, x, o)
 	case *ssa.Call:
+		if _, isBuiltin := x.Call.Value.(*ssa.Builtin); !isBuiltin {
+			vc.yield(st)
+		}
 		res := f.call(x, &x.Call, o, x.Type())
 		f.env[x] = res
 		if f.noReturn(&x.Call) {
@@ -323,6 +352,46 @@ func (f *Frame) execInstr(b *ssa.BasicBlock, in ssa.Instruction, o *blockOut) bo
 		vc.unsupported(fmt.Sprintf("instruction %T", in))
 		if v, ok := in.(ssa.Value); ok {
 			f.env[v] = vc.freshVal(v.Type(), "unsupported")
+		}
+	}
+	return false
+}
+
+// closureEscapes: the closure value is used other than as the callee of a call or defer.
+func closureEscapes(mc *ssa.MakeClosure) bool {
+	refs := mc.Referrers()
+	if refs == nil {
+		return false
+	}
+	for _, r := range *refs {
+		switch x := r.(type) {
+		case *ssa.Call:
+			if x.Call.Value != ssa.Value(mc) {
+				return true
+			}
+		case *ssa.Defer:
+			if x.Call.Value != ssa.Value(mc) {
+				return true
+			}
+		case *ssa.DebugRef:
+		default:
+			return true
+		}
+	}
+	return false
+}
+
+// isMethodOf reports whether fn (or the function it is nested in) is a method of struct type t.
+func isMethodOf(fn *ssa.Function, t types.Type) bool {
+	for f := fn; f != nil; f = f.Parent() {
+		if recv := f.Signature.Recv(); recv != nil {
+			rt := recv.Type()
+			if p, ok := rt.(*types.Pointer); ok {
+				rt = p.Elem()
+			}
+			if typeKey(rt) == typeKey(t) {
+				return true
+			}
 		}
 	}
 	return false
@@ -406,8 +475,13 @@ func (vc *VC) markAlloc(st *State, r Term, t types.Type) {
 	if s, ok := structOf(t); ok {
 		skey := typeKey(t)
 		for i := 0; i < s.NumFields(); i++ {
+			if s.Field(i).Name() == "_" {
+				continue // blank fields cannot be addressed
+			}
 			if _, isS := structOf(s.Field(i).Type()); isS {
-				vc.markAlloc(st, vc.subObj(r, skey, s.Field(i).Name()), s.Field(i).Type())
+				sub := vc.subObj(r, skey, s.Field(i).Name())
+				vc.news = append(vc.news, sub)
+				vc.markAlloc(st, sub, s.Field(i).Type())
 			}
 		}
 	}
@@ -595,12 +669,6 @@ func (f *Frame) unop(x *ssa.UnOp, st *State, g Term) Val {
 	switch x.Op {
 	case token.MUL: // load
 		f.nonNil(x, v, g, "load")
-		if a, ok := x.X.(*ssa.Alloc); ok && f.isShared(a) {
-			return vc.freshVal(t, "shared."+a.Comment)
-		}
-		if fv, ok := x.X.(*ssa.FreeVar); ok && f.isSharedFree(fv) {
-			return vc.freshVal(t, "shared."+fv.Name())
-		}
 		r := vc.load(st, v, t)
 		r.Typ = t
 		vc.assumeWF(r)
@@ -617,6 +685,7 @@ func (f *Frame) unop(x *ssa.UnOp, st *State, g Term) Val {
 		}
 		return f.named(x, Val{K: KInt, T: wrapAddSub(App(SInt, "-", v.T), t), Typ: t})
 	case token.ARROW:
+		vc.yield(st)
 		return vc.freshVal(t, "recv")
 	case token.XOR:
 		bits, signed := intBits(t)
@@ -626,6 +695,64 @@ func (f *Frame) unop(x *ssa.UnOp, st *State, g Term) Val {
 		return f.named(x, Val{K: KInt, T: Sub(BigLit(pow2[bits]), Add(v.T, IntLit(1))), Typ: t})
 	}
 	return vc.freshVal(t, "unop")
+}
+
+// markShared records the local cells reachable from a value that escapes to
+// another goroutine (closure bindings, pointers): from now on they are
+// havocked at every yield point (call, channel operation, select).
+func (vc *VC) markShared(v Val) {
+	switch v.K {
+	case KFunc:
+		for _, b := range v.Binds {
+			vc.markShared(b)
+		}
+	case KStruct, KTuple:
+		for _, f := range v.Fs {
+			vc.markShared(f)
+		}
+	case KPtr:
+		if v.Local != "" || v.T.S == "0" || v.Typ == nil {
+			return
+		}
+		et := derefType(v.Typ)
+		if et == nil {
+			return
+		}
+		if _, isStruct := structOf(et); isStruct {
+			return // heap objects are governed by contracts, not by this rule
+		}
+		isNew := false
+		for _, n := range vc.news {
+			if n.S == v.T.S {
+				isNew = true
+			}
+		}
+		if !isNew {
+			return
+		}
+		if vc.sharedCells == nil {
+			vc.sharedCells = map[string]Val{}
+		}
+		vc.sharedCells[v.T.S+"|"+fmt.Sprint(len(v.Path))] = v
+	}
+}
+
+// yield havocs every local cell shared with other goroutines.
+func (vc *VC) yield(st *State) {
+	if len(vc.sharedCells) == 0 {
+		return
+	}
+	keys := make([]string, 0, len(vc.sharedCells))
+	for k := range vc.sharedCells {
+		keys = append(keys, k)
+	}
+	sort.Strings(keys)
+	for _, k := range keys {
+		p := vc.sharedCells[k]
+		for _, l := range vc.objectLocs(p, derefType(p.Typ)) {
+			vc.havoc(st, l)
+		}
+	}
 }
 
 func (f *Frame) isShared(a *ssa.Alloc) bool {
@@ -862,20 +989,10 @@ func (f *Frame) goStmt(x *ssa.Go, o *blockOut) {
 	// The goroutine body is not interleaved. Every local cell it captures is
 	// marked shared: later reads in this function return unconstrained values.
 	f.vc.goroutines++
-	mark := func(v ssa.Value) {
-		switch a := v.(type) {
-		case *ssa.Alloc:
-			f.shared[a] = true
-		case *ssa.FreeVar:
-			f.shared[a] = true
-		}
-	}
-	if mc, ok := x.Call.Value.(*ssa.MakeClosure); ok {
-		for _, b := range mc.Bindings {
-			mark(b)
-		}
+	if !x.Call.IsInvoke() {
+		f.vc.markShared(f.val(x.Call.Value))
 	}
 	for _, a := range x.Call.Args {
-		mark(a)
+		f.vc.markShared(f.val(a))
 	}
 }
